@@ -10,8 +10,13 @@ func NewRange(b, e int) Range {
 	return Range{b, e}
 }
 
-// Len is in the iteration interface
-func (r Range) Len() int { return r.e + 1 - r.b }
+// Len is in the iteration interface. A range whose end precedes its start is empty.
+func (r Range) Len() int {
+	if r.e < r.b {
+		return 0
+	}
+	return r.e + 1 - r.b
+}
 
 // Index is in the iteration interface
 func (r Range) Index(i int) any { return r.b + i }
